@@ -15,7 +15,7 @@ META = {
         "otherwise a disposal it records leaves the guarded holding untouched and the same shares can be sold again. R4 (PROV): "
         "every error built in the cascade formats the sale's ticker and date. R5: the quantities the guard reads are maintained by "
         "paired updates (shared with C02-R3: recorded = debited; pooled = marked on the lots). Does not decide the iff over histories nor the "
-        "decimal-residue refusal after a 3-for-1 split."),
+        "decimal-residue refusal after a 3-for-1 split. R6: candidate purchases and ratio updates of the 30-day look-ahead sit under the ticker guard (shared with C02-R6/C09-R2), so another security's SPLIT cannot make the guarded holding drift."),
     "trusted_base": ["rustc MIR + resolution", "callee write sets are computed over workspace bodies only"],
 }
 
